@@ -4040,6 +4040,8 @@ int cg_ncoords(int fn, int B, int Z, int *ncoords)
 
     if (cgi_check_mode(cg->filename, cg->mode, CG_MODE_READ)) return CG_ERROR;
 
+    if (cgi_get_zone(cg, B, Z) == 0) return CG_ERROR;
+
      /* Get memory address for node "GridCoordinates" */
     zcoor = cgi_get_zcoorGC(cg, B, Z);
     if (zcoor==0) *ncoords = 0;     /* if ZoneGridCoordinates_t is undefined */
@@ -9622,6 +9624,8 @@ int cg_nholes(int fn, int B, int Z, int *nholes)
 
     if (cgi_check_mode(cg->filename, cg->mode, CG_MODE_READ)) return CG_ERROR;
 
+    if (cgi_get_zone(cg, B, Z) == 0) return CG_ERROR;
+
     zconn = cgi_get_zconn(cg, B, Z);
     if (zconn==0) *nholes = 0;  /* if ZoneGridConnectivity_t is undefined */
     else          *nholes = zconn->nholes;
@@ -9962,6 +9966,8 @@ int cg_nconns(int fn, int B, int Z, int *nconns)
     if (cg == 0) return CG_ERROR;
 
     if (cgi_check_mode(cg->filename, cg->mode, CG_MODE_READ)) return CG_ERROR;
+
+    if (cgi_get_zone(cg, B, Z) == 0) return CG_ERROR;
 
     zconn = cgi_get_zconn(cg, B, Z);
     if (zconn==0) *nconns = 0;  /* if ZoneGridConnectivity_t is undefined */
@@ -10586,6 +10592,8 @@ int cg_n1to1(int fn, int B, int Z, int *n1to1)
 
     if (cgi_check_mode(cg->filename, cg->mode, CG_MODE_READ)) return CG_ERROR;
 
+    if (cgi_get_zone(cg, B, Z) == 0) return CG_ERROR;
+
     zconn = cgi_get_zconn(cg, B, Z);
     if (zconn==0) *n1to1 = 0;   /* if ZoneGridConnectivity_t is undefined */
     else          *n1to1 = zconn->n1to1;
@@ -11024,6 +11032,8 @@ int cg_nbocos(int fn, int B, int Z, int *nbocos)
     if (cg == 0) return CG_ERROR;
 
     if (cgi_check_mode(cg->filename, cg->mode, CG_MODE_READ)) return CG_ERROR;
+
+    if (cgi_get_zone(cg, B, Z) == 0) return CG_ERROR;
 
     zboco = cgi_get_zboco(cg, B, Z);
     if (zboco==0) *nbocos = 0;  /* if ZoneBC_t is undefined */
@@ -14299,6 +14309,8 @@ int cg_particle_ncoords(int fn, int B, int P, int *ncoords)
    if (cg == 0) return CG_ERROR;
 
    if (cgi_check_mode(cg->filename, cg->mode, CG_MODE_READ)) return CG_ERROR;
+
+   if (cgi_get_particle(cg, B, P) == 0) return CG_ERROR;
 
     /* Get memory address for node "ParticleCoordinates" */
    pcoor = cgi_get_particle_pcoorPC(cg, B, P);
